@@ -3,9 +3,9 @@ CONSTANTS
   Srv = {1, 2}
   Names = {"a", "b"}
   Clients = {1}
-  MaxAtt = 3
+  MaxAtt = 2
   MaxCuts = 1
-  MaxProxies = 1
+  MaxProxies = 2
   Dev_NoCleanup = FALSE
   Dev_RouterFirst = FALSE
   Dev_NoLease = FALSE
@@ -15,4 +15,5 @@ CONSTANTS
   Dev_RemovedForStaged = FALSE
   Dev_EnableErrorIgnored = FALSE
 INVARIANTS TypeOK UniqueNames IdsIncreasing VisibleExactly EventsOnce LiveVisible VisibleReachable StagedOwned NoOrphan TerminatedInvisible
+VIEW MCView
 CHECK_DEADLOCK FALSE
